@@ -5,7 +5,6 @@ import (
 	"go/constant"
 	"go/token"
 	"go/types"
-	"sort"
 	"strings"
 
 	"golang.org/x/tools/go/ssa"
@@ -20,7 +19,7 @@ func init() {
 		Explanation: "(R1) in the CFG of downStream.receive no path leads from a RunReceiverFilter call to an upstream-send site (a call from which ConnectionPool.NewStream / upstreamRequest.append* is reachable — computed, not listed) without passing a processError call whose `err != nil` edge returns; " +
 			"(R2) every hijack API (SendHijackReply, SendHijackReplyWithBody, SendDirectResponse) unconditionally raises downStream.directResponse and installs the reply headers; (R3) in processError the directResponse branch is reached only after the cleaned check, clears the retry state and leaves only towards the send-filter phase (or Oneway) with ErrExit unless already in it; " +
 			"(R4) phase constants order UpFilter < UpRecvHeader < UpRecvData < UpRecvTrailer, RunSenderFilter sits in the UpFilter case and the reply is written only in the UpRecv* cases; " +
-			"(R5) chain iteration: one filter invocation per iteration, index advanced by one, Stop/termination reset the index and return, ReMatchRoute/ReChooseHost return without resetting it; the status handler maps them to MatchRoute/ChooseHost only in the matching phase and termination to cleanStream. (R6) pool hygiene of DefaultStreamFilterChainImpl: every field written while a request uses the chain is reset in the function that puts it into the sync.Pool (or the methods it calls before) or after Get; cursor fields are reset to 0. (R1, helpers) a same-package helper that runs the receive filters counts as filter-run-plus-check only if every path from its RunReceiverFilter call to its return consults processError. (R7) in TerminateStream every installation of the terminate reply is guarded by downstreamRespHeaders == nil.",
+			"(R5) chain iteration: one filter invocation per iteration, index advanced by one, Stop/termination reset the index and return, ReMatchRoute/ReChooseHost return without resetting it; the status handler maps them to MatchRoute/ChooseHost only in the matching phase and termination to cleanStream. (R6) pool hygiene of DefaultStreamFilterChainImpl: every field written while a request uses the chain is reset in the function that puts it into the sync.Pool (or the methods it calls before) or after Get; cursor fields are reset to 0. (R1, helpers) a same-package helper that runs the receive filters counts as filter-run-plus-check only if every path from its RunReceiverFilter call to its return consults processError. (R7) in TerminateStream every installation of the terminate reply is guarded by downstreamRespHeaders == nil. (R5 rematch-mapping, round 6) in the arm (ReMatchRoute, AfterRoute) resp. (ReChooseHost, AfterChooseHost) of the status handler the again-phase is recorded on every path, directly or by a helper of the package that stores its parameter unconditionally.",
 		Run: runC14,
 	})
 }
@@ -596,42 +595,96 @@ func c14Chain(c *Ctx) {
 	}
 	mr, _ := constOf(tp, "MatchRoute")
 	ch, _ := constOf(tp, "ChooseHost")
+	// The chain has left its cursor on the asking filter, so once the handler is in the arm (status, matching filter phase)
+	// the again-phase must be recorded on every path - directly, or by a helper of the package that stores its parameter
+	// unconditionally. An arm that can decline (a cap, an extra condition) leaves the pass unresumed: the filters after the
+	// asking one never run and the next phase starts in the middle of the chain.
 	okMap := map[int64]bool{}
+	whyMap := map[int64]string{}
+	armGuards := func(b *ssa.BasicBlock) (status string, phaseGuard bool) {
+		for _, g := range guardsAt(b) {
+			bo, ok := g.Cond.(*ssa.BinOp)
+			if !ok || bo.Op != token.EQL || !g.True {
+				continue
+			}
+			if k, ok := bo.Y.(*ssa.Const); ok {
+				if sv, ok := constString(k); ok {
+					status = sv
+				}
+			}
+			if bo.X == ssa.Value(fn.Params[1]) {
+				phaseGuard = true
+			}
+		}
+		return
+	}
+	record := func(n int64, b *ssa.BasicBlock, at ssa.Instruction, sure bool, why string) {
+		status, phaseGuard := armGuards(b)
+		if !((n == mr && status == "Retry Match Route") || (n == ch && status == "Retry Choose Host")) || !phaseGuard {
+			return
+		}
+		// within the arm the recording instruction itself must not be skippable: no path from the arm's entry (the block
+		// right after the phase test) to the function's return avoids it
+		armSure := true
+		for _, g := range guardsAt(b) {
+			if bo, ok := g.Cond.(*ssa.BinOp); ok && bo.X == ssa.Value(fn.Params[1]) && g.True {
+				entry := g.If.Block().Succs[0]
+				if existsPathFrom(entry, isReturn, func(x ssa.Instruction) bool { return x == at }) != nil {
+					armSure = false
+				}
+			}
+		}
+		if sure && armSure {
+			okMap[n] = true
+		} else if why != "" {
+			whyMap[n] = why
+		} else {
+			whyMap[n] = "the arm can be left without recording the phase"
+		}
+	}
 	for _, st := range storesToField(fn, ".downStream", "receiverFiltersAgainPhase", false) {
-		n, isC := constInt(st.Val)
-		if !isC {
-			continue
-		}
-		// guards: status const and phase const
-		var status string
-		for _, g := range guardsAt(st.Block()) {
-			if bo, ok := g.Cond.(*ssa.BinOp); ok && bo.Op == token.EQL && g.True {
-				if k, ok := bo.Y.(*ssa.Const); ok {
-					if s, ok := constString(k); ok {
-						status = s
-					}
-				}
-			}
-		}
-		if (n == mr && status == "Retry Match Route") || (n == ch && status == "Retry Choose Host") {
-			// must also be guarded by the filter phase parameter
-			phaseGuard := false
-			for _, g := range guardsAt(st.Block()) {
-				if bo, ok := g.Cond.(*ssa.BinOp); ok && bo.X == ssa.Value(fn.Params[1]) && g.True && bo.Op == token.EQL {
-					phaseGuard = true
-				}
-			}
-			if phaseGuard {
-				okMap[n] = true
-			}
+		if n, isC := constInt(st.Val); isC {
+			record(n, st.Block(), st, true, "")
 		}
 	}
-	var got []string
-	for k := range okMap {
-		got = append(got, fmt.Sprint(k))
+	for _, cs := range callsIn(fn, false, func(cc *ssa.CallCommon) bool {
+		f := cc.StaticCallee()
+		return f != nil && f.Pkg == fn.Pkg && len(f.Blocks) > 0
+	}) {
+		h := cs.Instr.Common().StaticCallee()
+		for _, st := range storesToField(h, ".downStream", "receiverFiltersAgainPhase", false) {
+			par, isP := st.Val.(*ssa.Parameter)
+			if !isP {
+				continue
+			}
+			idx := -1
+			for i, q := range h.Params {
+				if q == par {
+					idx = i
+				}
+			}
+			if idx < 0 || idx >= len(cs.Instr.Common().Args) {
+				continue
+			}
+			n, isC := constInt(cs.Instr.Common().Args[idx])
+			if !isC {
+				continue
+			}
+			sure := unconditionalIn(st)
+			why := ""
+			if !sure {
+				why = h.Name() + " records the phase only on some of its paths"
+			}
+			record(n, cs.Instr.Block(), cs.Instr, sure, why)
+		}
 	}
-	sort.Strings(got)
-	c.Check("C14.R5", fk+":rematch-mapping", fn.Pos(), okMap[mr] && okMap[ch], "ReMatchRoute->MatchRoute only after-route; ReChooseHost->ChooseHost only after-choose-host", "the status handler no longer maps re-match/re-choose to their phases under the matching filter phase")
+	detail := ""
+	for _, k := range []int64{mr, ch} {
+		if !okMap[k] && whyMap[k] != "" {
+			detail += " (" + whyMap[k] + ")"
+		}
+	}
+	c.Check("C14.R5", fk+":rematch-mapping", fn.Pos(), okMap[mr] && okMap[ch], "ReMatchRoute->MatchRoute only after-route; ReChooseHost->ChooseHost only after-choose-host; recorded on every path of the arm", "the status handler does not always map re-match/re-choose to their phases under the matching filter phase"+detail+": the chain has left its cursor on the asking filter, so when the phase is not recorded the pass is never resumed - the filters configured after the asking one are skipped and the next phase starts in the middle of the chain (a denying filter does not run and the request is forwarded)")
 	term := callsIn(fn, false, func(cc *ssa.CallCommon) bool { return methodName(cc) == "cleanStream" })
 	c.Check("C14.R5", fk+":termination-cleans", fn.Pos(), len(term) == 1, "termination ends the stream (cleanStream)", "termination no longer cleans the stream")
 }
